@@ -175,6 +175,25 @@ pub fn run_pcase(ctx: &mut Ctx, handle: &ProcfsHandle, c: &PCase<'_>) {
 
 /// ... optionally with the `k`-th system call failing with `errno`; returns the kinds of the calls made.
 pub fn run_pcase_f(ctx: &mut Ctx, handle: &ProcfsHandle, c: &PCase<'_>, fault: Option<(usize, i32)>) -> Vec<&'static str> {
+    let extra = match fault {
+        Some((k, e)) => format!("fault single at={k} errno={e}\n"),
+        None => String::new(),
+    };
+    let ip: Option<Box<dyn pathrs::verif::Interposer>> = fault.map(|(k, e)| {
+        Box::new(crate::attack::Faulter(crate::attack::Fault::Single(k, e), 0)) as Box<dyn pathrs::verif::Interposer>
+    });
+    run_pcase_x(ctx, handle, c, &extra, ip, &mut || String::new())
+}
+
+/// the core: extra header lines, an optional interposer, and lines to add after the call (`post`)
+pub fn run_pcase_x(
+    ctx: &mut Ctx,
+    handle: &ProcfsHandle,
+    c: &PCase<'_>,
+    extra: &str,
+    ip: Option<Box<dyn pathrs::verif::Interposer>>,
+    post: &mut dyn FnMut() -> String,
+) -> Vec<&'static str> {
     let (hfd, hmnt, hsub, hemu) = verif::procfs_describe(handle);
     let (pfd, pmnt, psub, pemu) = verif::procfs_describe(verif::global_procfs());
     let mut s = String::new();
@@ -205,12 +224,7 @@ pub fn run_pcase_f(ctx: &mut Ctx, handle: &ProcfsHandle, c: &PCase<'_>, fault: O
     ));
     let path = ops::p(&c.subpath);
     let flags = OpenFlags::from_bits_retain(c.flags);
-    if let Some((k, e)) = fault {
-        s.push_str(&format!("fault single at={k} errno={e}\n"));
-    }
-    let ip: Option<Box<dyn pathrs::verif::Interposer>> = fault.map(|(k, e)| {
-        Box::new(crate::attack::Faulter(crate::attack::Fault::Single(k, e), 0)) as Box<dyn pathrs::verif::Interposer>
-    });
+    s.push_str(extra);
     let before = ops::fd_table();
     let (r, log) = ops::recorded(ip, || match c.api {
         Api::Open => handle.open(c.base, path, flags).map(|f| ops::Outcome::Fd(f.into())),
@@ -240,7 +254,9 @@ pub fn run_pcase_f(ctx: &mut Ctx, handle: &ProcfsHandle, c: &PCase<'_>, fault: O
         }
     };
     s.push_str(&ops::fd_table_diff(&before, &after, ex));
-    s.push_str("\nend\n");
+    s.push('\n');
+    s.push_str(&post());
+    s.push_str("end\n");
     ctx.out.write_all(s.as_bytes()).unwrap();
     log.iter().map(|(c, _)| c.kind).collect()
 }
@@ -683,6 +699,99 @@ pub fn suite_overmount(ctx: &mut Ctx, masks: &[u32], faults: bool) {
         let _ = std::fs::remove_file(format!("/verif/.cache/work/c06-link-{}", std::process::id()));
     }
     let _ = Path::new("/");
+}
+
+fn unmount_top(dst: &str) {
+    if let Some(fd) = open_nofollow(dst) {
+        let p = cstr(&format!("/proc/{}/fd/{}", std::process::id(), fd.as_raw_fd()));
+        unsafe { libc::umount2(p.as_ptr(), libc::MNT_DETACH) };
+    } else {
+        let c = cstr(dst);
+        unsafe { libc::umount2(c.as_ptr(), libc::MNT_DETACH) };
+    }
+}
+
+/// performs one over-mount immediately before the `at`-th system call of the lookup
+struct Mounter {
+    at: usize,
+    dst: &'static str,
+    over: Over,
+    done: std::rc::Rc<std::cell::RefCell<Option<(u64, u64)>>>,
+}
+
+impl pathrs::verif::Interposer for Mounter {
+    fn pre(&mut self, idx: usize, _call: &pathrs::verif::Call) -> pathrs::verif::Action {
+        if idx == self.at && self.done.borrow().is_none() {
+            if let Ok(ident) = overmount(self.dst, &self.over) {
+                *self.done.borrow_mut() = Some(ident);
+            }
+        }
+        pathrs::verif::Action::Proceed
+    }
+}
+
+/// C06, last clause: one mount racing with a non-following lookup.  For handles that see the host's mounts, the
+/// over-mount of the looked-up entry is performed before the k-th system call of the lookup, for every k; the
+/// lookup may succeed with the genuine object (it was past that point) or fail, but never return the over-mount.
+pub fn suite_racemount(ctx: &mut Ctx) {
+    if !enter_mntns() {
+        let _ = ctx.out.write_all(b"case rm-skip\nmeta suite=proc_racemount skipped=unshare\nop skip\nres err skip\nend\n");
+        return;
+    }
+    let cands = overmount_candidates();
+    let mut id = 0;
+    for (ci, (base, sub, dst, over)) in cands.iter().enumerate() {
+        if ci >= 12 || matches!(over, Over::LinkTo(_)) {
+            continue;
+        }
+        for kind in [HKind::UnsafeOpen, HKind::UserFd] {
+            for emulated in [false, true] {
+                if !verif::openat2_is_supported() && !emulated {
+                    continue;
+                }
+                let mut owned = match kind.make() {
+                    Ok(Some(h)) => h,
+                    _ => continue,
+                };
+                verif::procfs_set_emulated(&mut owned, emulated);
+                for flags in [libc::O_PATH, libc::O_RDONLY | libc::O_NONBLOCK] {
+                    let mk = |idstr: String, meta: String| PCase {
+                        id: idstr,
+                        suite: "proc_racemount",
+                        kind,
+                        emulated,
+                        api: Api::Open,
+                        base: *base,
+                        subpath: sub.as_bytes().to_vec(),
+                        flags,
+                        meta,
+                    };
+                    id += 1;
+                    let kinds = run_pcase_f(ctx, &owned, &mk(format!("rm{id}"), format!("dst={dst} race_at=none")), None);
+                    for k in 0..=kinds.len() {
+                        id += 1;
+                        let done = std::rc::Rc::new(std::cell::RefCell::new(None));
+                        let ip = Box::new(Mounter { at: k, dst, over: over.clone(), done: done.clone() });
+                        let d2 = done.clone();
+                        run_pcase_x(
+                            ctx,
+                            &owned,
+                            &mk(format!("rm{id}"), format!("dst={dst} race_at={k}")),
+                            "",
+                            Some(ip),
+                            &mut || match *d2.borrow() {
+                                Some((d, n)) => format!("racemount {d}:{n}\n"),
+                                None => "racemount none\n".to_string(),
+                            },
+                        );
+                        if done.borrow().is_some() {
+                            unmount_top(dst);
+                        }
+                    }
+                }
+            }
+        }
+    }
 }
 
 // ---------------------------------------------------------------------------
